@@ -456,6 +456,8 @@ def recursion(R, P, fns, which=("self", "xml", "cjson")):
                 g = RU.cmp_norm(t, c, p)
                 if g and g[2] is not None and t.show(RU.uncast(t, g[0])) == "doc_depth" and g[1] == "<" and "max_depth" in t.show(g[2]):
                     ok = True
+                if g and g[2] is not None and t.show(RU.uncast(t, g[2])) == "doc_depth" and g[1] == ">" and "max_depth" in t.show(g[0]):
+                    ok = True  # the same test with the operands the other way round
         R.check(ok and len(push) == 1, "RECUR", "xml:depth-guard-dominates-push", where(t, push[0]) if push else t.name, "descent only while depth < max_depth",
                 "XML descent is not bounded by max_depth: nesting depth translates into native recursion through the callback")
         pops = [e for e in t.calls("aws_array_list_pop_back") if argstr(t, e.node, 0, alias=False) == "parser->callback_stack"]
